@@ -159,6 +159,22 @@ def _ring_points(poly, k, rng, offset):
     return out
 
 
+def add_inverse_index(out):
+    """S.succof[y] / S.predof[y]: same-class elements x with F.succ[x] = y / F.pred[x] = y
+    (RoadNet.tla checks that this is exactly the inverse, I_InverseIndexExact)."""
+    n, cls, F = out["n"], out["cls"], out["F"]
+    succof = [[] for _ in range(n + 1)]
+    predof = [[] for _ in range(n + 1)]
+    for x in range(1, n + 1):
+        for key, inv in (("succ", succof), ("pred", predof)):
+            y = F[key][x - 1]
+            if 0 < y <= n and cls[y - 1] == cls[x - 1]:
+                inv[y - 1].append(x)
+    out["S"]["succof"] = succof
+    out["S"]["predof"] = predof
+    return out
+
+
 def export_network(net, name, seed=0, budget=600, points=True, seed_key=None):
     """Return the JSON-able structure audited by RoadNet.tla.  `budget` ~ number of sample points;
     `seed_key` (default: name) selects the sample points, so that two exports of the same map
@@ -370,6 +386,7 @@ def export_network(net, name, seed=0, budget=600, points=True, seed_key=None):
               "sidewalks", "shoulders", "crossings"):
         out[k] = [fix(v) for v in out[k]]
     out["raw_links"] = raw["n"]
+    add_inverse_index(out)
     if points:
         out["pts"] = measure_points(net, elems, cls, idx, mid, seed_key or name, seed, budget)
     return out
